@@ -17,6 +17,7 @@ CONSTANTS
   UseScan = TRUE
   UseAccounts2 = FALSE
   UseSelf = FALSE
+  FundAcct2 = FALSE
   UseDiverge = TRUE
   UseAdv = FALSE
 SPECIFICATION Spec
